@@ -389,6 +389,7 @@ func TypeIntersection(t1, t2 Type) *Type {
 	for _, t := range leftPossibleTypes {
 		if t.Is(t2) == TypeRelationIs {
 			if outputType == nil {
+				t := t
 				outputType = &t
 			} else {
 				*outputType = TypeSum(*outputType, t)
@@ -398,6 +399,7 @@ func TypeIntersection(t1, t2 Type) *Type {
 	for _, t := range rightPossibleTypes {
 		if t.Is(t1) == TypeRelationIs {
 			if outputType == nil {
+				t := t
 				outputType = &t
 			} else {
 				*outputType = TypeSum(*outputType, t)
